@@ -684,6 +684,20 @@ def units(tier):
             if dense_ and nsec > 1:
                 continue
             U.append(('h_fill_tensor', f"{sym},diag,sectors={nsec}", dict(sym=sym, nd=2, nsec=nsec, diag=True)))
+    if th:
+        # C02 thorough did not finish in 90 minutes: for the three symmetries the quick tier does not run (Z3, U1xU1, U1xU1xZ2) the
+        # costliest shapes (three or more legs together with two or more blocks) are left to the four symmetries of the quick list
+        extra = ('Z3', 'U1xU1', 'U1xU1xZ2')
+
+        def heavy(p):
+            if p.get('sym') not in extra:
+                return False
+            if 'nd_a' in p:
+                return p["nd_a"] + p["nd_b"] >= 5 and p["lt_a"] + p["lt_b"] >= 2 or p["lt_a"] + p["lt_b"] >= 4
+            nd = p.get('nd', 2)
+            lt = max(p.get('lt', 0), p.get('lt_a', 0), p.get('lt_b', 0))
+            return (nd >= 3 and lt >= 1) or lt >= 3
+        U = [u for u in U if not heavy(u[2])]
     return U
 
 
